@@ -3879,7 +3879,13 @@ func _select(n *node) {
 		}
 	}
 
+	tmpl := cases
 	n.exec = func(f *frame) bltn {
+		// The select statement may be executed by several goroutines at once:
+		// each execution fills its own case vector.
+		cases := make([]reflect.SelectCase, len(tmpl))
+		copy(cases, tmpl)
+
 		f.mutex.RLock()
 		cases[nbClause] = f.done
 		f.mutex.RUnlock()
